@@ -609,3 +609,41 @@ add("C05", "peek dropped before an unconditional advance", P,
 add("C05", "benign: peek expressed through the current token's type", P,
     "        if self._match_pair(TokenType.TABLE, TokenType.FUNCTION, advance=False):\n            self._advance()",
     "        if self._curr.token_type == TokenType.TABLE and self._next.token_type == TokenType.FUNCTION:\n            self._advance()", "silent", 0)
+
+add("C07", "unicode literal no longer neutralises line breaks", G,
+    "            this = self._replace_line_breaks(this).replace(right_quote, right_quote * 2)",
+    "            this = this.replace(right_quote, right_quote * 2)", "C07.d")
+add("C07", "quoted identifier emitted without line-break neutralisation", G,
+    "                f\"{self._identifier_start}{self._replace_line_breaks(text)}{self._identifier_end}\"",
+    "                f\"{self._identifier_start}{text}{self._identifier_end}\"", "C07.d")
+add("C07", "benign: neutralise first, then double the delimiter in a second statement", G,
+    "            this = self._replace_line_breaks(this).replace(right_quote, right_quote * 2)",
+    "            this = self._replace_line_breaks(this)\n            this = this.replace(right_quote, right_quote * 2)", "silent", 0)
+add("C09", "child-list builder reads the existing clause before copying the instance", CORE,
+    "    instance = maybe_copy(instance, copy)\n    parsed = []\n    properties = {} if properties is None else properties\n",
+    "    parsed = []\n    properties = {} if properties is None else properties\n    existing = instance.args.get(arg)\n    if append and existing:\n        parsed = existing.expressions + parsed\n    instance = maybe_copy(instance, copy)\n",
+    "C09.a")
+add("C10", "outer CTE definitions win over the nested WITH's", "sqlglot/optimizer/scope.py",
+    "            cte_sources={**self.cte_sources, **(cte_sources or {})},",
+    "            cte_sources={**(cte_sources or {}), **self.cte_sources},", "C10.c")
+add("C10", "benign: same precedence written with the | operator", "sqlglot/optimizer/scope.py",
+    "            cte_sources={**self.cte_sources, **(cte_sources or {})},",
+    "            cte_sources=self.cte_sources | (cte_sources or {}),", "silent", 0)
+add("C12", "DType looked up by name although dump writes the value", "sqlglot/serde.py",
+    "        return exp.DType(payload[VALUE])", "        return exp.DType[payload[VALUE]]", "C12.e")
+add("C12", "type payloads memoised on DataType equality", "sqlglot/serde.py",
+    "def load(\n    payloads: list[dict[str, t.Any]] | None,\n)",
+    "import functools\n\n\n@functools.lru_cache(maxsize=64)\ndef _dump_type(dtype: exp.DataType) -> list[dict[str, t.Any]]:\n    return dump(dtype)\n\n\ndef load(\n    payloads: list[dict[str, t.Any]] | None,\n)",
+    "C12.f")
+add("C13", "fast path counts CR and LF separately (CRLF twice)", "sqlglot/tokenizer_core.py",
+    "                    + sql.count(\"\\r\", pos, end)\n                    - sql.count(\"\\r\\n\", pos, end)\n",
+    "                    + sql.count(\"\\r\", pos, end)\n", "C13.e")
+add("C13", "revert: fast path counts LF only", "sqlglot/tokenizer_core.py",
+    "                    + sql.count(\"\\r\", pos, end)\n                    - sql.count(\"\\r\\n\", pos, end)\n",
+    "", "C13.e")
+add("C13", "column restarts after the last LF only", "sqlglot/tokenizer_core.py",
+    "                    self._col = end - max(sql.rfind(\"\\n\", pos, end), sql.rfind(\"\\r\", pos, end))",
+    "                    self._col = end - sql.rfind(\"\\n\", pos, end)", "C13.e")
+add("C13", "benign: count terms reordered", "sqlglot/tokenizer_core.py",
+    "                    sql.count(\"\\n\", pos, end)\n                    + sql.count(\"\\r\", pos, end)\n",
+    "                    sql.count(\"\\r\", pos, end)\n                    + sql.count(\"\\n\", pos, end)\n", "silent", 0)
